@@ -548,7 +548,24 @@ fn directives(k: u8) {
     let data: [u8; 3] = vany();
     let words: [u16; 2] = [vany(), vany()];
     let len: usize = vany();
+    // every value the directives can carry, NOSET included
+    let sel: u8 = vany();
+    vassume(sel < 6);
+    let given_ss = match sel {
+        0 => Stacksize::_0,
+        1 => Stacksize::_16,
+        2 => Stacksize::_32,
+        3 => Stacksize::_48,
+        4 => Stacksize::_64,
+        _ => Stacksize::NotSet,
+    };
+    let given_ps = match sel {
+        0 | 1 | 2 => Programsize::Size(vany()),
+        3 | 4 => Programsize::Auto,
+        _ => Programsize::NotSet,
+    };
     vcover!(n == 5, "pre.n-5");
+    vcover!(sel == 5, "pre.noset");
     let inst = match k {
         0 => Instruction::AsmOrigin(a0 + n),
         1 => Instruction::AsmByte(n),
@@ -560,8 +577,8 @@ fn directives(k: u8) {
             vassume(len <= 2);
             Instruction::AsmDefineWords(words[..len].to_vec())
         }
-        4 => Instruction::AsmStacksize(if vany() { Stacksize::_48 } else { Stacksize::_0 }),
-        _ => Instruction::AsmProgramsize(if vany() { Programsize::Size(vany()) } else { Programsize::Auto }),
+        4 => Instruction::AsmStacksize(given_ss),
+        _ => Instruction::AsmProgramsize(given_ps),
     };
     let (ss, ps) = (tr.stacksize, tr.programsize);
     tr.push_instruction(&inst, &None);
@@ -576,20 +593,22 @@ fn directives(k: u8) {
     vassert!(bols.len() == expected_len, "C02.D.emitted-length");
     vassert!(tr.next_addr == a0 + expected_len as u8, "C02.D.address-counter-advances-by-emitted-bytes");
     let i: usize = vany();
-    vassume(i < expected_len);
-    let want = match k {
-        0 | 1 => 0,
-        2 => data[i],
-        _ => {
-            let w = words[i / 2];
-            if i % 2 == 0 { (w >> 8) as u8 } else { (w & 0xFF) as u8 }
-        }
-    };
-    vassert!(matches!(&bols[i], ByteOrLabel::Byte(b) if *b == want), "C02.D.fill-and-data-bytes");
+    if i < expected_len {
+        let want = match k {
+            0 | 1 => 0,
+            2 => data[i],
+            _ => {
+                let w = words[i / 2];
+                if i % 2 == 0 { (w >> 8) as u8 } else { (w & 0xFF) as u8 }
+            }
+        };
+        vassert!(matches!(&bols[i], ByteOrLabel::Byte(b) if *b == want), "C02.D.fill-and-data-bytes");
+    }
+    vcover!(true, "post.limit-clauses-reached");
     if k == 4 {
-        vassert!(tr.stacksize != Stacksize::NotSet && tr.programsize == ps, "C02.D.stacksize-recorded");
+        vassert!(tr.stacksize == given_ss && tr.programsize == ps, "C02.D.stacksize-recorded-as-written");
     } else if k == 5 {
-        vassert!(tr.stacksize == ss, "C02.D.programsize-recorded");
+        vassert!(tr.programsize == given_ps && tr.stacksize == ss, "C02.D.programsize-recorded-as-written");
     } else {
         vassert!(tr.stacksize == ss && tr.programsize == ps, "C02.D.limits-untouched");
     }
